@@ -27,11 +27,16 @@ def enumerate_specs(tier):
             if tier == "quick" and len(cfgs) > 24:
                 step = max(1, len(cfgs) // 24)
                 cfgs = cfgs[::step]
-            for args in cfgs:
+            for ci, args in enumerate(cfgs):
                 n = len(od.inputs(args))
                 for dt in ("float32", "float64"):
                     for gdt in ("float32", "float64"):
                         specs.append({"cat": cname, "op": name, "args": args, "variant": {"dtype": dt, "gdtype": gdt}})
+                if len(od.inputs(args)[0].shape) >= 2 and (tier != "quick" or ci % 2 == 0):
+                    # the first operand as a non-contiguous view (transposed / strided): conversions made for the sake of
+                    # contiguity must keep the dtype
+                    specs.append({"cat": cname, "op": name, "args": args,
+                                  "variant": {"dtype": "float32", "gdtype": "float32", "layout": "T" if ci % 4 == 0 else "S"}})
                 if n == 2 and cname == "tensor":
                     specs.append({"cat": cname, "op": name, "args": args,
                                   "variant": {"dtypes": ["float32", "float64"], "gdtype": "float64"}})
